@@ -61,7 +61,13 @@ EntryPoints == {"verifier", "withPolicyArgs", "withPolicyCtx", "parseWithPolicy"
 (* benign deviations from the canonical form: listed like violations in s.viol (they change how the signature is built), but no condition is violated *)
 (*   calAggrOmittedOk: the calendar chain omits its aggregation-time element AND the signature was issued in the publication second                   *)
 Benign == {"calAggrOmittedOk"}
-Violated(s) == ({v.c : v \in s.viol} \ Benign) \cup (IF \E p \in s.pads : ~PadValid(p) THEN {"padding"} ELSE {})
+(* hash-algorithm lifetime (hash.c, KSI_checkHashAlgorithmAt): an algorithm with a deprecation date D is trusted at t iff t < D -- the deprecation second    *)
+(* itself is already outside its lifetime.  The four algorithm kinds in s.viol say "SHA-1 (D = 2016-07-01T00:00:00Z) is used in this role"; s.epoch places  *)
+(* the signature's aggregation time one second before D, exactly at D, or well after it.  The use is a violation unless the epoch is "before".              *)
+AlgKinds == {"inputAlg", "aggrAlg", "rfcAlg", "rfcOutAlg"}
+Epochs == {"before", "at", "after"}
+Trusted(epoch) == epoch = "before"
+Violated(s) == ({v.c : v \in s.viol} \ (Benign \cup (IF Trusted(s.epoch) THEN AlgKinds ELSE {}))) \cup (IF \E p \in s.pads : ~PadValid(p) THEN {"padding"} ELSE {})
                \cup (IF s.doc = "digest" THEN {"docHash"} ELSE {}) \cup (IF s.doc = "alg" THEN {"docAlg"} ELSE {})
                \cup (IF s.level = "over" \/ (s.rfc /\ s.level = "ok") THEN {"docLevel"} ELSE {})
 Has(s, c) == c \in Violated(s)
